@@ -352,7 +352,7 @@ def solve_wrapper(task):
                         res['dropped_after_unconfirmed'] += 1
                         progressed = True
                     continue
-                ent = known.match(task.get('known', []), task['prop'], meta, cfg, s['kind'])
+                ent = known.match(task.get('known', []), task['prop'], meta, cfg, s['kind'], s.get('desc', ''))
                 if ent is None:
                     violations.append(rec)
                     for ob in case.obligations:      # one reproduced violation per wrapper and class is enough
